@@ -47,12 +47,12 @@ NOTES = {
             'note': SEQ_NOTE + ' Partial: concurrent histories and the striped adder are not yet covered.'},
 }
 
-NOTES['C18'] = {'technique': 'Lean 4 proof over a transcription of sketch.go (mixers regenerated) + exact white-box differential',
+NOTES['C18'] = {'technique': 'Lean 4 proof over a transcription of sketch.go (mixers and masks regenerated; bit-level bridges proven): never under-counts within a period for every recording sequence and capacity, aging halves, estimate <= 15, admission rule + exact white-box differential',
     'engine': 'proof+unit-sketch',
-    'text': 'Theorems for every table/hash/counter: estimate <= 15; zero and no-op before initialisation; increment (unrolled) and frequency (loop) address the same four counters; '
+    'text': 'Theorems (Props.C18 over Proofs.SketchCount, no bound on sequence length, keys, capacity): for every table ensureCapacity builds (RoundUpPowerOf2 proven to give a multiple of 8 when >= 8, so every counter position is in bounds) and every recording sequence without an aging step, estimate(key) >= min(15, occurrences of key), whatever else was recorded; increment = record then age exactly when the sample is full; aging halves every counter and every estimate; estimate <= 15; zero and no-op before initialisation; increment (unrolled) and frequency (loop) address the same four counters; '
             'nibble lemmas (adding 16^j to a word whose j-th 4-bit counter is < 15 increments exactly that counter, all others unchanged); admission decision exactly (candidate > victim) or (candidate >= 6 and 1/128 draw). '
             'Tie: UNIT-sketch reproduces the real table digest and size after every call (saturation, resets, resizes, non-power-of-two capacities); spread/rehash are translated from the source.',
-    'note': 'Trusted: Lean kernel; translator; the white-box differential (bounded by generated sequences; tables up to 8192 words). Partial: the under-count bound over whole recording sequences and the halving step are proved at nibble level (Proofs.Nibble), not yet lifted to the BitVec table model; maphash itself is a parameter.'}
+    'note': 'Trusted: Lean kernel; translator; the white-box differential (bounded by generated sequences; tables up to 8192 words). maphash itself is a parameter (the theorems hold for every hash function); the 1/128 random admission is modelled as an input.'}
 
 NOTES['C13'] = {'technique': 'Lean 4 proof (per-level window/visit/tick lemmas of the timer wheel, race clause, order-preserving time map) + exact white-box differential + per-sweep oracle',
     'engine': 'proof+unit-wheel+seq',
@@ -109,9 +109,9 @@ NOTES['C15'] = {'technique': 'Lean 4 proof (finite-map laws of the specification
     'text': 'Theorems: read-your-write/frame/delete/distinct-keys laws; the stored 7-bit hash fragment is always below the empty marker 0x80; empty meta = broadcast(0x80). Skeletons of Get/Compute/resize/copyBucket/copyBucketWithDestLock/Range/waitForResize equal the snapshot. '
             'Tie: CONC-lin on the table alone with growth and shrink forced by side keys: per-key linearizability, callbacks once, Size = keys = Range at quiescence; SEQ: iteration yields exactly the live entries once.',
     'note': _CONC_NOTE + 'PARTIAL: no mechanised model of bucket chains, SWAR search and cooperative resize; heavy in-bucket collisions are produced only by chance (maphash is seeded per table).'}
-NOTES['C08'] = {'technique': 'Lean 4 proof (registration/completion rules of the single-flight specification) + skeleton equality + concurrent single-flight judge + sequential correspondence with hang watchdog',
+NOTES['C08'] = {'technique': 'Lean 4 proof (interleaving model Conc.Flight: all schedules of join/create/unregister/cancel/kill/resume for unboundedly many callers, writers and call objects; plus registration/completion rules of the specification) + skeleton equality + concurrent single-flight judge + sequential correspondence with hang watchdog',
     'engine': 'proof+gen-skeleton+conc-flight+seq',
-    'text': 'Theorems for every state and outcome (value, error, not-found, panic): a second registration is refused; completion unregisters the call; a later Get registers afresh. Skeletons of startCall/deleteCall/delete/doCall/doBulkCall/afterDeleteCall equal the snapshot. '
+    'text': 'Theorems for every state and outcome (value, error, not-found, panic): a second registration is refused; completion unregisters the call; a later Get registers afresh. Conc.Flight (every reachable state): two loads of one key are in progress at once only if a write/invalidation/eviction removed the registered call in between; once no load runs no record is registered; a waiter always has an enabled step of its leader or itself (leader unregisters BEFORE releasing the waiters). Skeletons of startCall/deleteCall/delete/doCall/doBulkCall/afterDeleteCall and of the callers Get/BulkGet/refreshKey/bulkRefreshKeys/wrapLoad/wait/cancel equal the snapshot (no return between registration and doCall/doBulkCall; cancel after the table critical section). '
             'Tie: CONC-flight (real callers joining blocked loads: no overlapping executions, one execution per successful load, joined callers get the outcome, no in-flight record left, nobody hangs); SEQ load profile incl. panics in the load part of a bulk refresh (F12).',
     'note': _CONC_NOTE + 'PARTIAL: sync.WaitGroup and panics crossing goroutines are runtime behaviour; a panic in a reload on the default executor terminates the process by design and is excluded.'}
 
